@@ -14,7 +14,10 @@
        `k in s` is False although s[k] succeeds (C15_int_membership_excluded shows it);
    (2) attribute access is claimed for names Python does not resolve on the object/class
        itself (class_attrs = dir(s): append, index, keys, mnemonic_transforms, ...): those
-       never reach SectionItems.__getattr__. *)
+       never reach SectionItems.__getattr__.
+   UNFOLDING LEMMAS (audit D10; they restate a definition and are NOT to be counted as property theorems):
+   C15_int_set_item (set_item on an int key unfolded: unfold; destruct; reflexivity), C15_set_value_fields
+   (the record fields of set_value). *)
 From Coq Require Import List NArith ZArith Bool String.
 Import ListNotations.
 Require Import PyStr Items ItemsProofs.
